@@ -21,7 +21,7 @@ RUN_CLAUSE_PROPS = {
     "MatchesAsync_Ts": {"C01"}, "MatchesAsync_State": {"C01"}, "MatchesAsync_Rng": {"C01"}, "MatchesAsync_Window": {"C01"},
     "MatchesAsync_Output": {"C01"},
     "FinalStepCounter": {"C09"}, "FinalNodeState": {"C09"}, "FinalSeq": {"C09"},
-    "RecordRow": {"C13"}, "RecordNeverExecutedRow": {"C13"},
+    "RecordRow": {"C13"}, "RecordNeverExecutedRow": {"C13"}, "PayloadOfNamedSeq": {"C08", "C01"},
 }
 SCHED_CLAUSE_PROPS = {
     "VertexExists": {"C07"}, "EachVertexOnce": {"C07", "C06"}, "InSeqOrder": {"C07"}, "CarriesOwnTimes": {"C07"}, "CarriesOwnWindow": {"C07"},
@@ -69,6 +69,14 @@ def _judge(rep, items, module, table, mine, kind):
         if v["verdict"] == "accept":
             continue
         props = table.get(v["clause"], set())
+        also = None
+        if " ALSO [clause |-> \"" in v["detail"]:   # a second, independently judged clause (RexRun: PayloadOfNamedSeq on the log alone)
+            also = v["detail"].split(" ALSO [clause |-> \"", 1)[1].split("\"", 1)[0]
+        if not (props & mine) and also and (table.get(also, set()) & mine):
+            rep.violation(dict(clause=also, kind=kind),
+                          dict(kind=kind, job={k: job[k] for k in job if k not in ("runs", "histories")}, trace_id=t["id"], verdict=v),
+                          text=f"{kind} trace {t['id']} rejected by {module} clause {v['clause']} and, independently, by {also}: {v['detail'].split(' ALSO ', 1)[1][:600]}")
+            continue
         if props & mine:
             rep.violation(dict(clause=v["clause"], kind=kind),
                           dict(kind=kind, job={k: job[k] for k in job if k not in ("runs", "histories")}, trace_id=t["id"], verdict=v),
@@ -220,7 +228,7 @@ def c08(tier, seed):
         ms = [ALL_MODES[(i * 2 + j) % 6] + [{"extra_padding": pads[(i + j) % 3]}] for j in range(2 if quick else 6)]
         return ms
 
-    jobs = _run_jobs_for(seed + 200, 5 if quick else 20, "c08r", runs_of, modes_of, fam=("same_generation_pair", "slow_producer", "slow_producer", "same_generation_pair", "slow_side_node"))  # positions 0 and 3 run with extra_padding 0
+    jobs = _run_jobs_for(seed + 200, 5 if quick else 20, "c08r", runs_of, modes_of, fam=("same_generation_pair", "slow_producer", "fast_node", "same_generation_pair", "slow_side_node"))  # positions 0 and 3 run with extra_padding 0; position 2 compiles TOPOLOGICAL (uniform scan path, > 10 slots of a kind)
     jobs += _run_jobs_for(seed + 250, 2 if quick else 12, "c08g", runs_of, modes_of, source="generate")
     results, run_items, vs, metas = _run_campaign(rep, jobs, {"C08"})
     # user-supplied buffer sizes: every admissible size must work, a size below the minimum must be refused by rex
@@ -357,7 +365,7 @@ def c06_compiled(rep, tier, seed):
         return ([ALL_MODES[(i * 2) % 6] + [{}], ALL_MODES[(i * 2 + 3) % 6] + [{"skip_nonsup": i}]] if quick
                 else [m + [{}] for m in ALL_MODES] + [ALL_MODES[i % 6] + [{"skip_nonsup": i}], ALL_MODES[(i + 3) % 6] + [{"skip_nonsup": i + 1}]])
 
-    jobs = _run_jobs_for(seed + 300, 3 if quick else 12, "c06c", runs_of, modes_of, fam=("slow_side_node", "fast_node"))  # position 1: GENERATIONAL + TOPOLOGICAL
+    jobs = _run_jobs_for(seed + 300, 4 if quick else 12, "c06c", runs_of, modes_of, fam=("rare_overrun", "fast_node", "slow_side_node"))  # position 0: MCS; position 1: GENERATIONAL + TOPOLOGICAL
     results, run_items, vs, metas = _run_campaign(rep, jobs, {"C06"})
     n = 0
     for (job, res, t), v in zip(run_items, vs):
